@@ -179,7 +179,7 @@ class Style:
         s = cls(rnd)
         for attr in ("case", "ws", "radix", "brackets", "regs", "legacy", "synonyms", "implicit_word", "comments", "tabs"):
             setattr(s, attr, rnd.choice([0.0, strength, strength, 1.0]) if rnd.random() < 0.8 else 0.0)
-        s.bracket_kinds = rnd.choice([("(",), ("<",), ("(", "<"), ("(", "<", "^")])
+        s.bracket_kinds = rnd.choice([("(",), ("<",), ("(", "<"), ("(", "<", "^"), ("^",)])
         return s
 
     def p(self, prob):
@@ -268,7 +268,7 @@ def _bracket(inner, style, needed):
     kinds = style.bracket_kinds if style.rnd else ("(",)
     kind = style.rnd.choice(kinds) if style.rnd else "("
     if kind == "^":
-        free = [d for d in "/?\\:" if d not in inner]
+        free = [d for d in "/?\\:|=[]" if d not in inner]
         if free:
             d = style.rnd.choice(free)
             return f"^{d}{inner}{d}"
@@ -358,11 +358,12 @@ def r_operand(o, style=PLAIN):
     if k == "mode":
         m, n = o[1], o[2]
         r = r_reg(n, style)
+        w = (lambda: style.sp("")) if style.rnd else (lambda: "")     # blanks are allowed between all the parts of an operand
         if m == 1:
             if style.p(style.legacy):
-                return "@" + r
-            return f"({r})"
-        return {2: f"({r})+", 3: f"@({r})+", 4: f"-({r})", 5: f"@-({r})"}[m]
+                return "@" + w() + r
+            return f"({w()}{r}{w()})"
+        return {2: f"({w()}{r}{w()}){w()}+", 3: f"@{w()}({w()}{r}{w()}){w()}+", 4: f"-{w()}({w()}{r}{w()})", 5: f"@{w()}-{w()}({w()}{r}{w()})"}[m]
     if k in ("idx", "idxd"):
         e = o[1]
         s = r_expr(e, style)
@@ -370,11 +371,12 @@ def r_operand(o, style=PLAIN):
         if not atom and not (e[0] == "bin" and _hoistable(e) and (style.rnd is None or style.rnd.random() < 0.5)):
             if not (e[0] == "grp"):
                 s = _bracket(s, style, True)
-        return ("@" if k == "idxd" else "") + s + f"({r_reg(o[2], style)})"
+        w = (lambda: style.sp("")) if style.rnd else (lambda: "")
+        return ("@" + w() if k == "idxd" else "") + s + w() + f"({w()}{r_reg(o[2], style)}{w()})"
     if k == "imm":
-        return "#" + r_expr(o[1], style)
+        return "#" + (style.sp("") if style.rnd else "") + r_expr(o[1], style)
     if k == "abs":
-        return "@#" + r_expr(o[1], style)
+        return "@" + (style.sp("") if style.rnd else "") + "#" + (style.sp("") if style.rnd else "") + r_expr(o[1], style)
     if k == "rel":
         return _rel_expr(o[1], style)
     if k == "reld":
@@ -506,9 +508,12 @@ def r_string_chunks(chunks, quote, style):
                 if c in "\n\r\t\\" or ord(c) < 0x20 or c == quote:
                     body.append(r_char(c))
                 elif style.p(style.escapes) and ord(c) < 0x80:
-                    body.append(style.rnd.choice([f"\\x{ord(c):02x}", f"\\X{ord(c):02X}", ESC.get(c, c), "\\\n" + c]))
+                    body.append(style.rnd.choice([f"\\x{ord(c):02x}", f"\\X{ord(c):02X}", ESC.get(c, c), "\\\n" + c, f"\\\n\\x{ord(c):02x}",
+                                                  "\\\n" + ESC.get(c, c), "\\\n\\\n" + c]))
                 else:
                     body.append(c)
+            if style.p(style.escapes * 0.3):
+                body.append("\\\n")          # a line continuation as the last thing in the string
             out.append(quote + "".join(body) + quote)
     return style.sp(" ").join(out) if out else quote + quote
 
